@@ -315,6 +315,20 @@ def generic_layer(ctx, bk, which, k, kwcase=False, block=None):
     return int(ctx.counts["states"] - before)
 
 
+def reverse_pass(ctx, bk):
+    """history layer, run serially in ONE process so that it is deterministic: the whole k<=1 layer in enumeration
+    order and then once more in REVERSE order.  State kept between translations (caches keyed by literal value,
+    registries, annotation names) therefore sees every pair of filters in both orders."""
+    _BK[bk.name] = bk
+    en = _enum(bk, "full")
+    terms = list(en.terms(typed.B, 0)) + list(en.terms(typed.B, 1))
+    for term in terms:
+        check_term_generic(ctx, bk, term, styles=("min",))
+    for term in reversed(terms):
+        check_term_generic(ctx, bk, term, styles=("min",))
+    return 2 * len(terms)
+
+
 def generic_strings(ctx, bk, maxlen):
     _BK[bk.name] = bk
     strs = sigma_strings(maxlen)
